@@ -37,6 +37,10 @@ def conv_type(j, comments):
                 cs.append("([], None)")
             elif isinstance(c, dict) and set(c.keys()) == {"tag", "type"}:
                 cs.append("(%s, Some %s)" % (cstr(c["tag"]), conv_type(c["type"], comments)))
+            elif isinstance(c, dict) and set(c.keys()) == {"tag", "explicitTag", "type"} and c["explicitTag"] is True:
+                # a tag given with the `!union {tag: type}` syntax: the schema records that it is explicit; kept visible in the
+                # structure as a suffix no identifier can carry
+                cs.append("(%s, Some %s)" % (cstr(c["tag"] + "!"), conv_type(c["type"], comments)))
             else:
                 cs.append("([], Some %s)" % conv_type(c, comments))
         return "(SCases %s)" % clist(cs)
